@@ -2,6 +2,8 @@
 package c07
 
 import (
+	"time"
+
 	"verif/engine/build"
 	"verif/engine/gose"
 	"verif/engine/props/core"
@@ -33,6 +35,10 @@ func Run(r *core.Report, env *build.Env) {
 		{Pkg: "src/ddperror", Func: "VerifC07Render3", Bound: "excerpt renderer: all sources of 3 characters over the alphabet, every in-file range"},
 		{Pkg: "src/parser", Func: "VerifC07ParserFlag", Bound: "parser.errVal / warn: all prior flag values and both levels"},
 		{Pkg: "src/parser/typechecker", Func: "VerifC07SilentRestores", Bound: "Typechecker.EvaluateSilent: all prior flag values"},
+		{Pkg: "src/parser", Func: "VerifC07ParseFlags1", Bound: "whole frontend on every source of 1 byte: faulty flag against delivered errors"},
+		{Pkg: "src/parser", Func: "VerifC07ParseFlags2", Bound: "whole frontend on every source of 2 bytes: faulty flag against delivered errors"},
+		{Pkg: "src/parser", Func: "VerifC07ParseFlags3", Bound: "whole frontend on every source of 3 bytes: faulty flag against delivered errors", Opts: gose.Options{Deadline: 30 * time.Minute}},
+		{Pkg: "src/parser", Func: "VerifC07ExprRanges", Bound: "46 expression forms (every operator syntax) as ill-typed initial value and as ill-typed assigned value: ranges of all diagnostics"},
 		{Pkg: "src/parser", Func: "VerifC07CallSiteFlags", Bound: "the call-site programs of C09 (populations of up to 2 of 11 alias declarations incl. a generic one whose instantiation fails, x 8 argument forms per position): faulty flag against delivered errors"},
 		{Pkg: "src/parser", Func: "VerifC07ImportDiagnostics", Bound: "two modules in memory: every subset of 4 library and 3 local declarations x 5 import forms x both orders; all diagnostics of the main module"},
 	}
